@@ -30,11 +30,42 @@ type Result struct {
 	Panics    []string // per thread, "" when none
 	Steps     int
 	Diverged  string // non-empty when a replayed prefix did not fit (hard error)
+	Abandoned bool   // the chooser gave up (sleep-set blocked)
 	Ops       []string
 	StuckInfo string
 }
 
+// OpSig identifies the operation a parked thread is about to perform, for the
+// independence relation of the partial-order reduction.
+type OpSig struct {
+	Obj  any  // the synchronisation object (nil: purely thread-local step, e.g. thread start)
+	Key  any  // sub-object (sync.Map key); nil = the whole object
+	Read bool // does not modify the object
+}
+
+// Independent reports whether two pending operations commute.
+func Independent(a, b OpSig) bool {
+	if a.Obj == nil || b.Obj == nil || a.Obj != b.Obj {
+		return true
+	}
+	if a.Read && b.Read {
+		return true
+	}
+	if a.Key != nil && b.Key != nil && a.Key != b.Key {
+		return true
+	}
+	return false
+}
+
+// Alt is one alternative at a decision point.
+type Alt struct {
+	Thread int
+	Op     OpSig
+	Cost   int
+}
+
 type thread struct {
+	op      OpSig
 	id      int
 	wake    chan struct{}
 	body    func()
@@ -47,6 +78,7 @@ type thread struct {
 
 // Exec is one controlled execution.
 type Exec struct {
+	chooser func(i int, alts []Alt, env bool) int
 	threads []*thread
 	yield   chan int // thread id that yielded (or finished)
 	running int
@@ -66,7 +98,18 @@ func Active() bool { return cur != nil && !cur.aborted }
 // always taking alternative 0 (keep running the current thread if enabled, else
 // the lowest enabled id; environment default answer).
 func Run(bodies []func(), prefix []int, trace bool) Result {
-	e := &Exec{yield: make(chan int), prefix: prefix, running: -1, trace: trace}
+	return runExec(&Exec{prefix: prefix, trace: trace}, bodies)
+}
+
+// RunWith is Run with every decision delegated to choose (which returns the index of
+// the alternative to take, or -1 to abandon the execution: Result.Abandoned is set).
+func RunWith(bodies []func(), choose func(i int, alts []Alt, env bool) int) Result {
+	return runExec(&Exec{chooser: choose}, bodies)
+}
+
+func runExec(e *Exec, bodies []func()) Result {
+	e.yield, e.running = make(chan int), -1
+	trace := e.trace
 	for i, b := range bodies {
 		e.threads = append(e.threads, &thread{id: i, wake: make(chan struct{}), body: b, kind: "start"})
 	}
@@ -115,7 +158,23 @@ func Run(bodies []func(), prefix []int, trace bool) Result {
 				costs[i] = 1
 			}
 		}
-		ch := e.choose("sched", len(enabled), costs, false, -1)
+		var ch int
+		if e.chooser != nil {
+			alts := make([]Alt, len(enabled))
+			for i, id := range enabled {
+				alts[i] = Alt{Thread: id, Op: e.threads[id].op, Cost: costs[i]}
+			}
+			ch = e.chooser(len(e.res.Points), alts, false)
+			if ch < 0 {
+				e.res.Abandoned = true
+				e.abort()
+				break
+			}
+			e.res.Choices = append(e.res.Choices, ch)
+			e.res.Points = append(e.res.Points, PointRec{Kind: "sched", Alts: len(enabled), Chosen: ch, Cost: costs[ch], AltCost: costs})
+		} else {
+			ch = e.choose("sched", len(enabled), costs, false, -1)
+		}
 		if e.res.Diverged != "" {
 			e.abort()
 			break
@@ -200,7 +259,11 @@ func (e *Exec) abort() {
 // Point is called by the shims before an operation takes effect. can, when
 // non-nil, says whether the operation can proceed (e.g. the mutex is free); the
 // thread is not scheduled until it can.
-func Point(kind string, can func() bool) {
+func Point(kind string, can func() bool) { PointOp(kind, OpSig{Obj: kind}, can) }
+
+// PointOp is Point with the operation's signature (object, key, read-only) for the
+// partial-order reduction.
+func PointOp(kind string, op OpSig, can func() bool) {
 	e := cur
 	if e == nil {
 		return
@@ -209,7 +272,7 @@ func Point(kind string, can func() bool) {
 		runtime.Goexit()
 	}
 	t := e.threads[e.running]
-	t.kind, t.can = kind, can
+	t.kind, t.can, t.op = kind, can, op
 	e.yield <- t.id
 	<-t.wake
 	if e.aborted {
@@ -229,7 +292,21 @@ func EnvChoice(kind string, n int) int {
 	for i := 1; i < n; i++ {
 		costs[i] = 1
 	}
-	ch := e.choose(kind, n, costs, true, e.running)
+	var ch int
+	if e.chooser != nil {
+		alts := make([]Alt, n)
+		for i := range alts {
+			alts[i] = Alt{Thread: e.running, Cost: costs[i]}
+		}
+		ch = e.chooser(len(e.res.Points), alts, true)
+		if ch < 0 {
+			ch = 0
+		}
+		e.res.Choices = append(e.res.Choices, ch)
+		e.res.Points = append(e.res.Points, PointRec{Kind: kind, Alts: n, Chosen: ch, Cost: costs[ch], AltCost: costs, Env: true, Thread: e.running})
+	} else {
+		ch = e.choose(kind, n, costs, true, e.running)
+	}
 	if e.trace {
 		e.res.Ops = append(e.res.Ops, fmt.Sprintf("T%d:env %s=%d", e.running, kind, ch))
 	}
